@@ -817,7 +817,9 @@ func Run(t *testing.T, sc *Scenario, job explore.Job) explore.Result {
 				if i := strings.IndexByte(top, '('); i > 0 {
 					top = top[:i]
 				}
-				res.Viol = append(res.Viol, explore.Violation{Key: "goroutine-leak:" + top, What: fmt.Sprintf("%d goroutine(s) of the bubble still running 5 virtual seconds after Close/cleanup:\n%s", len(bad), strings.Join(bad, "\n"))})
+				if !res.Diverged { // a diverged replay is abandoned mid-run with its threads alive: not a verdict
+					res.Viol = append(res.Viol, explore.Violation{Key: "goroutine-leak:" + top, What: fmt.Sprintf("%d goroutine(s) of the bubble still running 5 virtual seconds after Close/cleanup:\n%s", len(bad), strings.Join(bad, "\n"))})
+				}
 			}
 		}
 		if leaked {
